@@ -175,7 +175,7 @@ theorem IndexByte (s : Utf8.Bytes) (r o : Nat) (c : Int) (h h' : Heap) (i w : Va
 
 
 /-- `TrimSuffix(s, t)`: `s[:i]` when `hasSuffixUnicode` matched at `i`, otherwise `s` -/
-theorem TrimSuffix (s : Utf8.Bytes) (r o : Nat) (t : Val) (h h' : Heap) (b : Bool) (k : Nat) (hk : k ≤ s.length)
+theorem TrimSuffix (s : Utf8.Bytes) (r o : Nat) (t : Val) (h h' : Heap) (b : Bool) (k : Nat) (hk : b = true → k ≤ s.length)
     (hC : Ret P false str_hasSuffixUnicode [.str s r o, t] h [.bool b, .int k] h') :
     Ret P false str_TrimSuffix [.str s r o, t] h [if b then .str (s.take k) r o else .str s r o] h' := by
   obtain ⟨n, hn⟩ := hC
@@ -183,12 +183,15 @@ theorem TrimSuffix (s : Utf8.Bytes) (r o : Nat) (t : Val) (h h' : Heap) (b : Boo
   obtain ⟨m, rfl⟩ : ∃ m, fuel = m + 8 := ⟨fuel - 8, by omega⟩
   have hC' := hn (m + 7) (by omega)
   rw [Frame.entry]
-  cases b <;>
+  cases b
+  · src_run [str_TrimSuffix, str_TrimSuffix_b0, str_TrimSuffix_b1, str_TrimSuffix_b2, run_call_fn (hb := nb_hasSuffixUnicode) (hf := find_hasSuffixUnicode),
+      hC', intOf]
+  · have hk' := hk rfl
     src_run [str_TrimSuffix, str_TrimSuffix_b0, str_TrimSuffix_b1, str_TrimSuffix_b2, run_call_fn (hb := nb_hasSuffixUnicode) (hf := find_hasSuffixUnicode),
-      hC', intOf, hk]
+      hC', intOf, hk']
 
 /-- `CutSuffix(s, t)` -/
-theorem CutSuffix (s t : Utf8.Bytes) (r o r2 o2 : Nat) (h h' : Heap) (b : Bool) (k : Nat) (hk : k ≤ s.length)
+theorem CutSuffix (s t : Utf8.Bytes) (r o r2 o2 : Nat) (h h' : Heap) (b : Bool) (k : Nat) (hk : b = true → k ≤ s.length)
     (hC : t ≠ [] → Ret P false str_hasSuffixUnicode [.str s r o, .str t r2 o2] h [.bool b, .int k] h') :
     Ret P false str_CutSuffix [.str s r o, .str t r2 o2] h
       (if t = [] then [.str s r o, .bool true] else if b then [.str (s.take k) r o, .bool true] else [.str s r o, .bool false])
@@ -206,9 +209,12 @@ theorem CutSuffix (s t : Utf8.Bytes) (r o r2 o2 : Nat) (h h' : Heap) (b : Bool) 
     have hl : ¬ (t.length : Int) = 0 := by
       intro e; exact ht (List.eq_nil_of_length_eq_zero (by omega))
     rw [Frame.entry, if_neg ht, if_neg ht]
-    cases b <;>
+    cases b
+    · src_run [str_CutSuffix, str_CutSuffix_b0, str_CutSuffix_b1, str_CutSuffix_b2, str_CutSuffix_b3, str_CutSuffix_b4,
+        run_call_fn (hb := nb_hasSuffixUnicode) (hf := find_hasSuffixUnicode), hC', intOf, hl, ht]
+    · have hk' := hk rfl
       src_run [str_CutSuffix, str_CutSuffix_b0, str_CutSuffix_b1, str_CutSuffix_b2, str_CutSuffix_b3, str_CutSuffix_b4,
-        run_call_fn (hb := nb_hasSuffixUnicode) (hf := find_hasSuffixUnicode), hC', intOf, hk, hl, ht]
+        run_call_fn (hb := nb_hasSuffixUnicode) (hf := find_hasSuffixUnicode), hC', intOf, hk', hl, ht]
 
 /-- `CutPrefix(s, p)`: through `TrimPrefix` and a comparison of lengths -/
 theorem CutPrefix (s t : Utf8.Bytes) (r o r2 o2 : Nat) (h h' : Heap) (u : Utf8.Bytes) (ru ou : Nat)
